@@ -16,7 +16,10 @@ PROP = {
                    "consecutive (repeat only as a reconnect retransmission) and the next point is the chain's point h+2; corrupted or "
                    "out-of-order revocations are rejected by ReceiveRevocation."),
     "level_note": ("2^48 index space is sampled: honest sequential insertion reaches bucket ~20 (AddNextEntry is sequential), deeper buckets through structurally built stores (deep cases); "
-                   "a crash inside RevokeCurrentCommitment (between its DB write and its return) is not modelled; held on the "
+                   "a crash inside RevokeCurrentCommitment (between its DB write and its return) is not modelled; in half of the release "
+                   "cases other subsystems write channel markers (MarkConfirmationHeight / MarkRealScid / MarkAsOpen / "
+                   "MarkCloseConfirmationHeight) through their own stale OpenChannel instance between actions, each followed by the "
+                   "reload fork (counter foreign_marker_writes); held on the "
                    "executions counted in evidence."),
     "design_ref": "DESIGN.md §3 C06",
     "rule": ("store: case = (seed, k, hostile position/kind); distinct = (trailing zeros of k, size class, hostile kind, hostile "
